@@ -169,3 +169,24 @@ def tiny_diploid(seed, k=3):
         if 1 <= nsing <= 3 and ts.num_mutations > nsing:
             out.append(Inp(f"tinydip{seed}_{i}", ts, 5e-4, 100, {"contemp", "diploid", "tiny"}))
     return out
+
+
+def renumbered(inp, seed=0, keep_samples=True):
+    """The same genealogy with non-sample node ids randomly permuted (so ids are no longer in
+    time order, as in tsinfer / SLiM output or after subset())."""
+    rng = np.random.default_rng(seed + 99)
+    ts = inp.ts
+    ids = np.arange(ts.num_nodes)
+    is_s = (ts.nodes_flags & tskit.NODE_IS_SAMPLE) != 0
+    if keep_samples:
+        rest = ids[~is_s]
+        order = np.concatenate([ids[is_s], rng.permutation(rest)])
+    else:
+        order = rng.permutation(ids)
+    tables = ts.dump_tables()
+    tables.subset(order.astype(np.int32), record_provenance=False, reorder_populations=False,
+                  remove_unreferenced=False)
+    tables.sort()
+    tables.build_index()
+    tables.compute_mutation_parents()
+    return Inp(inp.name + "_renum", tables.tree_sequence(), inp.mu, inp.Ne, inp.tags | {"renumbered"})
